@@ -189,6 +189,21 @@ func ruleC13For(c *Ctx, sub *ssa.Function, do, rr, pm *ssa.Call, first bool) {
 	}
 	c.obI("R13.3", do, "operation-client-first", okP, "the per-operation HTTP client takes precedence over the transport-wide one", whyP)
 
+	nCtx := 0
+	for _, in := range instrs(sub) {
+		ld, ok := in.(*ssa.UnOp)
+		if !ok {
+			continue
+		}
+		if _, isF := fieldLoad(ld, runtimeT, "Context"); !isF {
+			continue
+		}
+		nCtx++
+		g := guardedBy(ld, nil, factNil(vFieldLoadO("rt.ClientOperation", "Context"), true))
+		c.obI("R13.3", ld, "operation-context-first", g, "the transport-wide context is consulted only when the operation carries none (a per-operation context takes precedence: the state of the transport-wide context cannot fail or bound a call that brought its own)", "Runtime.Context is read although the operation has its own context")
+	}
+	c.obF("R13.3", sub, "reads-transport-context", nCtx >= 1, "Submit falls back to the transport-wide context", fmt.Sprintf("%d reads", nCtx))
+
 	// R13.4 shared state
 	entries := []*ssa.Function{sub, p.Fn("(*rt/client.Runtime).CreateHttpRequest")}
 	for _, n := range []string{"(*rt/client.tracingTransport).Submit", "(*rt/client.openTelemetryTransport).Submit"} {
